@@ -294,6 +294,58 @@ def opGate (j : Json) : R Json := do
   let s := specHist {} ops
   pure (Json.mkObj [("verdicts", Json.arr (v.map Json.bool).toArray), ("spec", Json.arr (s.map Json.bool).toArray)])
 
+open Edxml.Norm in
+def nativeOf (j : Json) : R Native := do
+  match ← fldStr j "t" with
+  | "int" => match (← fldStr j "v").toInt? with
+    | some z => pure (.int z)
+    | none => throw "bad int"
+  | "dec" => match (← fldStr j "coeff").toNat? with
+    | some c => pure (.dec (← fldBool j "neg") c (← (← fld j "exp").getInt?))
+    | none => throw "bad coeff"
+  | "bool" => pure (.bool (← fldBool j "v"))
+  | "str" => pure (.str (← fldStr j "v"))
+  | "datetime" =>
+    let f ← (← fldArr j "f").mapM fun x => x.getNat?
+    let off ← match fldOpt j "off" with
+      | some Json.null => pure none
+      | some x => pure (some (← x.getInt?))
+      | none => pure none
+    match f with
+    | [y, mo, d, h, mi, s, us] => pure (.datetime y mo d h mi s us off)
+    | _ => throw "datetime fields"
+  | "none" => pure .none
+  | x => throw s!"unknown native {x}"
+
+open Edxml.Norm in
+def outJson : Out → Json
+  | .ok s => Json.mkObj [("ok", s)]
+  | .reject => Json.str "reject"
+  | .undecided => Json.str "undecided"
+
+open Edxml.Norm in
+def opNorm (j : Json) : R Json := do
+  let dt ← fldStr j "dt"
+  let vals ← (← fldArr j "values").mapM nativeOf
+  let outs := vals.map (normalize dt)
+  -- normalizing the output again (as a string)
+  let again := outs.map fun o => match o with
+    | .ok s => normalize dt (.str s)
+    | o => o
+  -- the gate's verdict on the output (ASCII outputs only: the character classes are then plain)
+  let asciiInfo (s : String) : Edxml.Gate.StrInfo :=
+    { hasLu := s.toList.any (fun c => 'A' ≤ c && c ≤ 'Z'), hasLl := s.toList.any (fun c => 'a' ≤ c && c ≤ 'z'),
+      latin1 := true, regexOk := none }
+  let gate := outs.map fun o => match o with
+    | .ok s => if isAscii s then Json.bool (Edxml.Gate.accepts dt (asciiInfo s) s) else Json.null
+    | _ => Json.null
+  -- the gate's verdict on string inputs as they are (what the writer's auto repair looks at first)
+  let gateIn := vals.map fun v => match v with
+    | .str s => if isAscii s then Json.bool (Edxml.Gate.accepts dt (asciiInfo s) s) else Json.null
+    | _ => Json.null
+  pure (Json.mkObj [("out", Json.arr (outs.map outJson).toArray), ("again", Json.arr (again.map outJson).toArray),
+    ("gate", Json.arr gate.toArray), ("gateIn", Json.arr gateIn.toArray)])
+
 def dispatch (j : Json) : R Json := do
   match ← fldStr j "op" with
   | "ping" => pure (Json.mkObj [("pong", true)])
@@ -308,6 +360,7 @@ def dispatch (j : Json) : R Json := do
   | "update" => opUpdate j
   | "xmed" => opXmed j
   | "gate" => opGate j
+  | "norm" => opNorm j
   | x => throw s!"unknown op {x}"
 
 partial def loop (inp out : IO.FS.Stream) : IO Unit := do
